@@ -70,7 +70,7 @@ func vfC11Ack() {
 
 	flushed, okAcks, ended := false, 0, false
 	for step := 0; step < vfC11Events && !ended; step++ {
-		ev := vfChoice(vfName("ev", step), 6)
+		ev := vfChoice(vfName("ev", step), 7)
 		n := len(env.replies)
 		switch ev {
 		case 0: // leader's own flush
@@ -111,6 +111,16 @@ func vfC11Ack() {
 			rs := env.repliesFor(l.RequestId)
 			vfAssert(len(rs) == 1 && rs[0].result == protocol.RESULT_LOCK_ACK_WAITING, "C11: LOCK by a LockId whose lock awaits acknowledgement is not answered LOCK_ACK_WAITING")
 			vfReach("lock-waiting")
+		case 6: // unlock-first by another LockId while pending: the oldest hold IS the pending one
+			u := env.newCmd(protocol.COMMAND_UNLOCK, key, vfLockId(7))
+			u.Flag = protocol.UNLOCK_FLAG_UNLOCK_FIRST_LOCK_WHEN_UNLOCKED
+			ureq := u.RequestId
+			env.unlock(0, u)
+			rs := env.repliesFor(ureq)
+			vfAssert(len(rs) == 1, "C11: an unlock-first while the oldest hold awaits acknowledgement was not answered exactly once")
+			vfAssert(rs[0].result != protocol.RESULT_SUCCED, "C11: an unlock-first released a hold that still awaits acknowledgement (answered SUCCED, not LOCK_ACK_WAITING)")
+			vfAssert(len(env.repliesFor(req)) == 0, "C11: an unlock-first while pending produced a reply for the pending lock")
+			vfReach("unlock-first-waiting")
 		case 5: // the ack wait times out
 			vfTick(env, 7)
 			rs := env.repliesFor(req)
